@@ -1,6 +1,153 @@
 import DaeVerif.C08.Proofs
+/-!
+# C08 — property theorems
+
+Only statements a reader should audit live here (namespace `DaeVerif.C08.Props`); helper lemmas are
+in `Proofs.lean`.  A *history* is any list of operations (`Op`: insert, lookup, janitor run, reload
+clone, configuration swap, end of a background refresh, removals), each carrying the instant at
+which it runs; `run (start c0) ops` executes it from an empty cache under configuration `c0`.
+Every theorem below is about an arbitrary history, so "a lookup after the history `ops`" is every
+lookup of every history (`lookup_in_history` makes that link explicit).
+-/
 namespace DaeVerif.C08.Props
 open DaeVerif.C08
-theorem normTtl_le (n t : Nat) : normTtl n t ≤ 31536000 := by
-  unfold normTtl; dsimp only; split <;> omega
+
+/-- an empty cache under configuration `c0` -/
+def start (c0 : Cfg) : World := ⟨c0, State.empty⟩
+
+/-- The `i`-th answer of a history is the answer of that operation executed after the first `i`
+operations — so the theorems about "a lookup after `ops`" speak about every lookup of a history. -/
+theorem lookup_in_history (c0 : Cfg) (ops : List Op) (i : Nat) (op : Op) (h : ops[i]? = some op) :
+    (run (start c0) ops).2[i]? = some (step (run (start c0) (ops.take i)).1 op).2 :=
+  run_take_output _ _ _ _ h
+
+/-- **Scoped, live answers.**  Whatever the history (the clock may even jump backwards), if a lookup
+under `key` is answered, then
+* the answer is the one an *insert of the history* stored under exactly that key (`insKey` is the
+  key the insert used: the caller's `responseCacheKey`, or the derived one) — see `key_injective`
+  for what equal keys mean;
+* its deadline TTL `eff` is the TTL given to that insert or the `fixed_domain_ttl` of its host in a
+  configuration that was in force;
+* a fresh answer is served strictly before `t + eff` seconds (`t + ttl` when the caller ignores the
+  fixed TTL);
+* a stale answer is served only when optimistic caching is on, at or after the deadline, and — when
+  a stale window is configured — not after `deadline + optimistic_cache_ttl`. -/
+theorem served_only_live_and_scoped (c0 : Cfg) (ops : List Op) (now : Int) (key : Key) (ign : Bool) (sv : Served)
+    (h : (step (run (start c0) ops).1 (.lookup now key ign)).2 = .hit sv) :
+    ∃ key0 host0 ns c,
+      Op.insert sv.src.t key0 host0 sv.src.qtype sv.src.ttl sv.ans sv.nAns ns false ∈ ops ∧
+      key = insKey key0 host0 sv.src.qtype ∧
+      c ∈ cfgsOf c0 ops ∧ sv.src.eff = effTtl c (splitHost host0).2 sv.src.ttl ∧
+      (sv.stale = false → now < sv.src.t + (if ign then sv.src.ttl else sv.src.eff) * SEC) ∧
+      (sv.stale = true →
+        (run (start c0) ops).1.cfg.optimistic = true ∧ sv.src.t + sv.src.eff * SEC ≤ now ∧
+        ((run (start c0) ops).1.cfg.staleTtl > 0 →
+          now ≤ sv.src.t + sv.src.eff * SEC + (run (start c0) ops).1.cfg.staleTtl * SEC)) := by
+  obtain ⟨e0, hf, hl⟩ := step_lookup_hit h
+  have hm := find_mem hf
+  have hS := run_OkS ops (start c0) (AllE_empty _) _ hm
+  have hH := (run_SrcOk ops [c0] [] (start c0) (by simp [start]) (AllE_empty _)).2 _ hm
+  obtain ⟨hsrc, _, hans, hn, hfresh, hstale⟩ := served_bounds hS hl
+  obtain ⟨key0, host0, ns, c, h1, h2, h3, h4, h5⟩ := hH
+  refine ⟨key0, host0, ns, c, ?_, ?_, ?_, ?_, fun hs => (hfresh hs).1, fun hs => ?_⟩
+  · rw [hsrc, hans, hn]; simpa using h1
+  · rw [hsrc]; exact h4
+  · simpa [cfgsOf] using h2
+  · rw [hsrc, h5, h3]
+  · obtain ⟨a, b, c, _⟩ := hstale hs
+    exact ⟨a, b, c⟩
+
+-- non-vacuity: an insert under a scoped key (here `a.1|u`), then: fresh hit 2 s later (3 s left, the packed TTL 5 is shown: within the slack),
+-- stale hit with refresh request after expiry, miss beyond the 60 s window, miss under another type.
+example :
+    let k := ['a', '.', '1', '|', 'u']
+    let ops := [Op.insert 1000 k ['A', '.'] 1 5 7 1 0 false]
+    let w := (run (start (Cfg.normalize true 60 0 [])) ops).1
+    (step w (.lookup (1000 + 2 * SEC) k false)).2.view = some (false, 5, 7, false) ∧
+    (step w (.lookup (1000 + 9 * SEC) k false)).2.view = some (true, 5, 7, true) ∧
+    (step w (.lookup (1000 + 66 * SEC) k false)).2.view = none ∧
+    (step w (.lookup (1000 + 2 * SEC) ['a', '.', '2', '8', '|', 'u'] false)).2.view = none := by
+  decide
+
+/-- **Truthful TTL.**  Along any history whose clock never goes backwards, the TTL written into a
+fresh answer exceeds the whole seconds still left on its deadline (at least 1: a live answer is
+never shown with TTL 0 through rounding) by at most `ttlRefreshThresholdSeconds = 15`. -/
+theorem fresh_ttl_within_slack (c0 : Cfg) (t0 : Int) (ops : List Op) (hm : Mono t0 ops) (now : Int)
+    (hnow : lastTime t0 ops ≤ now) (key : Key) (ign : Bool) (sv : Served)
+    (h : (step (run (start c0) ops).1 (.lookup now key ign)).2 = .hit sv) (hs : sv.stale = false) :
+    sv.ttl ≤ max 1 ((sv.src.t + sv.src.eff * SEC - now) / SEC).toNat + SLACK := by
+  obtain ⟨e0, hf, hl⟩ := step_lookup_hit h
+  have hm' := find_mem hf
+  have hok := run_Ok ops t0 (start c0) hm (AllE_empty _) _ hm'
+  obtain ⟨hb, hsrc, _⟩ := fresh_ttl_bound hok hnow hl hs
+  rw [hsrc, ← hok.dl]; exact hb
+
+/-- the same in nanoseconds: shown TTL ≤ remaining lifetime (rounded up to 1 s when shorter) + 15 s -/
+theorem fresh_ttl_within_slack_nanos (c0 : Cfg) (t0 : Int) (ops : List Op) (hm : Mono t0 ops) (now : Int)
+    (hnow : lastTime t0 ops ≤ now) (key : Key) (sv : Served)
+    (h : (step (run (start c0) ops).1 (.lookup now key false)).2 = .hit sv) (hs : sv.stale = false) :
+    (sv.ttl : Int) * SEC ≤ max (sv.src.t + sv.src.eff * SEC - now) SEC + (SLACK : Int) * SEC := by
+  have := fresh_ttl_within_slack c0 t0 ops hm now hnow key false sv h hs
+  simp only [SEC, SLACK] at *
+  omega
+
+-- non-vacuity: TTL 100 packed at insert; at +15 s the packed 100 is still shown (85 left, slack
+-- exactly 15); at +16 s the response is re-packed and shows 84.
+example :
+    let ops := [Op.insert 0 ['k'] ['a'] 1 100 7 1 0 false, Op.lookup (1 * SEC) ['k'] false]
+    let w := (run (start (Cfg.normalize true 60 0 [])) ops).1
+    (step w (.lookup (15 * SEC) ['k'] false)).2.view = some (false, 100, 7, false) ∧
+    (step w (.lookup (16 * SEC) ['k'] false)).2.view = some (false, 84, 7, false) ∧
+    Mono 0 ops := by
+  refine ⟨by decide, by decide, by simp [Mono, Op.time, SEC]⟩
+
+/-- **Stale answers are served at once.**  With optimistic caching on, an expired entry that is inside
+the stale window (or any expired entry when `optimistic_cache_ttl = 0`) is answered immediately from
+the cache; the caller is told to start a refresh exactly when none is marked in flight. -/
+theorem stale_served_at_once (c0 : Cfg) (ops : List Op) (now : Int) (key : Key) (e : Entry)
+    (hf : find (run (start c0) ops).1.st.entries key = some e) (hns : e.ns ≠ 2)
+    (hopt : (run (start c0) ops).1.cfg.optimistic = true) (hexp : e.deadline ≤ now)
+    (hwin : (run (start c0) ops).1.cfg.staleTtl > 0 → now ≤ e.deadline + (run (start c0) ops).1.cfg.staleTtl * SEC) :
+    ∃ sv, (step (run (start c0) ops).1 (.lookup now key false)).2 = .hit sv ∧ sv.stale = true ∧
+      sv.ans = e.ans ∧ sv.nAns = e.nAns ∧ sv.refresh = !e.refreshing := by
+  have hS : OkS key e := run_OkS ops (start c0) (AllE_empty _) _ (find_mem hf)
+  have hst : staleResp (touch e now) now (run (start c0) ops).1.cfg.staleTtl = some e.packedTTL := by
+    unfold staleResp
+    rw [touch_deadlineNano, hS.dn, if_neg (by omega)]
+    have hp : (touch e now).packed = true := hS.pk.mpr hns
+    by_cases hw : (run (start c0) ops).1.cfg.staleTtl > 0
+    · rw [if_neg (by have := hwin hw; omega), if_pos hp]; rfl
+    · rw [if_neg (by omega), if_pos hp]; rfl
+  have hle : lookupDeadline false e ≤ now := by simpa [lookupDeadline] using hexp
+  rcases lookupEntry_cases (run (start c0) ops).1.cfg now false e with ⟨hd, _⟩ | hc | hc
+  · omega
+  · obtain ⟨_, _, ttl, hs, heq⟩ := hc
+    have hstep : (step (run (start c0) ops).1 (.lookup now key false)).2 =
+        LRes.hit ⟨(touch e now).id, (touch e now).src, (touch e now).ans, (touch e now).nAns, ttl,
+          decide ((touch e now).nAns > 0) || (touch e now).ns == 1, true, !(touch e now).refreshing⟩ := by
+      simp only [step, State.lookup, hf, heq]
+    exact ⟨_, hstep, rfl, rfl, rfl, rfl⟩
+  · obtain ⟨_, hor, _⟩ := hc
+    rcases hor with hor | hor
+    · rw [hopt] at hor; cases hor
+    · rw [hst] at hor; cases hor
+
+/-- **At most one refresh per cached answer.**  Along any history whose clock never goes backwards,
+no entry object (`eid`) ever makes two lookups return `needRefresh = true`: after the first, every
+further stale hit of that entry is served with `needRefresh = false` (`stale_served_at_once`) until
+the refresh replaces the entry (a new insert = a new object) or its end-of-refresh clean-up evicts it. -/
+theorem single_refresh_per_entry (c0 : Cfg) (t0 : Int) (ops : List Op) (hm : Mono t0 ops) :
+    (refreshIds (run (start c0) ops).2).Nodup := by
+  have := (run_IdInv ops t0 [] (start c0) hm (IdInv_empty t0)).nd
+  simpa using this
+
+-- non-vacuity: three stale lookups of one entry, exactly one refresh request (entry object 0)
+example :
+    let ops := [Op.insert 0 ['k'] ['a'] 1 1 7 1 0 false,
+      Op.lookup (2 * SEC) ['k'] false, Op.lookup (2 * SEC) ['k'] false, Op.lookup (3 * SEC) ['k'] false]
+    refreshIds (run (start (Cfg.normalize true 60 0 [])) ops).2 = [0] ∧
+    (run (start (Cfg.normalize true 60 0 [])) ops).2.map LRes.view =
+      [none, some (true, 1, 7, true), some (true, 1, 7, false), some (true, 1, 7, false)] ∧ Mono 0 ops := by
+  refine ⟨by decide, by decide, by simp [Mono, Op.time, SEC]⟩
+
 end DaeVerif.C08.Props
